@@ -41,6 +41,8 @@ var fixedVersions = []string{
 	// unparsable
 	"", "abc", "0.5", "0", "v0.5.12", "0.5.012", "00.5.12", "0.5.12.1", " 0.5.12", "0.5.12 ", "0.5.12\x00x", "0,5,12", "0.5.-12", "0.5.1２", "..", "0.5.", ".5.12",
 	"==0.5.12", "0.5.12 || 1.0.0", "*", "x.y.z", "0.5.x", "1", "1.0", "+", "-",
+	// numeric aliasing under packed / truncated comparisons
+	"0.4.65548", "0.5.65548", "0.65536.0", "0.5.268", "0.4.112", "0.0.512", "0.5.4294967308", "1.0.65536", "256.0.0", "0.261.12",
 	// 16-byte non-terminated fields
 	"111111111111.2.6", "0.5.12xxxxxxxxxx", "0.5.12-aaaaaaaaa", "0000000000000000", "1.0.0.0.0.0.0.0.", "\xff\xff\xff\xff\xff\xff\xff\xff\xff\xff\xff\xff\xff\xff\xff\xff",
 	"9999999999999999", "0.5.120000000000", "1.0.00000000000\x01",
@@ -52,7 +54,62 @@ func versionField(s string) []byte {
 	return b
 }
 
+// genVersionArith derives foreign version strings from the compatible ones by
+// arithmetic on the components: a borrow from a higher component carried into
+// the next lower one for common packing bases (shifts by 8/10/16/32 bits,
+// decimal 10/100/1000/10000), a multiple of the base added to one component,
+// and values around the integer limits. Any implementation that compares
+// packed integers, truncates components, or parses into fixed-width ints
+// aliases some of these onto a compatible version.
+func genVersionArith(r *Rng) []byte {
+	compat := [][3]uint64{{1, 0, 0}, {0, 5, 8}, {0, 5, 9}, {0, 5, 10}, {0, 5, 11}, {0, 5, 12}}
+	bases := []uint64{1 << 8, 1 << 10, 1 << 16, 1 << 32, 10, 100, 1000, 10000, 1 << 31, 1 << 20}
+	for tries := 0; tries < 50; tries++ {
+		v := compat[r.Intn(len(compat))]
+		b := bases[r.Intn(len(bases))]
+		switch r.Intn(5) {
+		case 0: // borrow from minor into patch
+			if v[1] == 0 {
+				continue
+			}
+			v[1]--
+			v[2] += b
+		case 1: // borrow from major into minor
+			if v[0] == 0 {
+				continue
+			}
+			v[0]--
+			v[1] += b
+		case 2: // add a multiple of the base to one component
+			v[r.Intn(3)] += b * uint64(r.Range(1, 3))
+		case 3: // borrow twice: major -> minor -> patch
+			if v[0] == 0 {
+				continue
+			}
+			v[0]--
+			v[1] += b - 1
+			v[2] += b
+		case 4: // limits
+			lim := []uint64{1<<16 - 1, 1<<31 - 1, 1<<32 - 1, 1<<63 - 1, 1 << 63, 1<<64 - 1}[r.Intn(6)]
+			v[r.Intn(3)] = lim
+		}
+		s := fmt.Sprintf("%d.%d.%d", v[0], v[1], v[2])
+		if len(s) > 16 {
+			continue
+		}
+		f := versionField(s)
+		if looksCompatible(f) {
+			continue
+		}
+		return f
+	}
+	return versionField("0.4.65548")
+}
+
 func genVersion(r *Rng) []byte {
+	if r.Chance(0.3) {
+		return genVersionArith(r)
+	}
 	switch r.Intn(6) {
 	case 0, 1, 2:
 		return versionField(fixedVersions[r.Intn(len(fixedVersions))])
